@@ -536,6 +536,7 @@ func runC18(input string) string {
 			}
 		case "Y":
 			c, err := ins.Copy(state)
+			laterCopies(ins, state)
 			obs = append(obs, c18err(err)+";"+c18print(c)+";sh="+c18shares(c18mem(state, nil), c18mem(c, nil)))
 			state = c
 		case "T":
@@ -631,6 +632,7 @@ func runC18Share(parts []string) string {
 			res = c18err(ins.Reset(hs[idx(f[1])]))
 		case "y":
 			c, err := ins.Copy(hs[idx(f[1])])
+			laterCopies(ins, hs[idx(f[1])])
 			res = c18err(err)
 			hs = append(hs, c)
 		case "t":
